@@ -91,6 +91,7 @@ class StateGraph:
         self.arity: list[int] = []
         self.edges: dict[int, list[int]] = {}
         self.term_out: dict[int, object] = {}
+        self.weights: dict[int, tuple] = {}  # non-uniform choice points (np.random.choice(p=...))
         self.executions = 0
         self.capped = False
         self.unmerged = 0
@@ -123,7 +124,7 @@ def build_state_graph(fn, term_key, root_names, lib_marker="maze_dataset", on_te
             key = ("S", choice.capture_state(root_names, lib_marker))
         except Opaque:
             key = None
-        captured["s"] = (key, n, kind)
+        captured["s"] = (key, n, kind, ch.last_weights)
         raise Prune()
 
     def run_prefix(prefix):
@@ -144,8 +145,8 @@ def build_state_graph(fn, term_key, root_names, lib_marker="maze_dataset", on_te
             return k, None, ex
         except Prune:
             g.executions += 1
-            key, n, kind = captured["s"]
-            return key, (n, kind), None
+            key, n, kind, w = captured["s"]
+            return key, (n, kind, w), None
 
     def intern(key, info, prefix, ex):
         if key is None:  # opaque: never merged
@@ -159,6 +160,8 @@ def build_state_graph(fn, term_key, root_names, lib_marker="maze_dataset", on_te
             g.arity.append(info[0] if info else 0)
             if info:
                 frontier.append(i)
+                if info[2] is not None:
+                    g.weights[i] = tuple(info[2])
             else:
                 g.term_out[i] = ex.out if ex.exc is None else ex.exc
             return i
@@ -193,8 +196,8 @@ def absorb(g: StateGraph, tol=1e-15, iters=1_000_000):
     n = g.n_states
     rows, cols, vals = [], [], []
     for s, outs in g.edges.items():
-        w = 1.0 / len(outs)
-        for t in outs:
+        ws = g.weights.get(s) or [1.0 / len(outs)] * len(outs)
+        for t, w in zip(outs, ws):
             rows.append(t)
             cols.append(s)
             vals.append(w)
